@@ -156,6 +156,13 @@ def ctor_base3d(ctx):
         run(ctx, 'C01/base.transl/list/%s' % name, 'base.transl', dict(form='list', t=name), 'SE3', b.transl, [x, y, z], key=('transl', name, 'l'), trivial=(name == '0'))
 
 
+def _tables(A, k):
+    import numpy as np
+    B = [0.3 * k, -0.4 * k, 0.5 * k]
+    yield 'array', np.array([A, B, A])
+    yield 'rows', [list(B), list(A)]
+
+
 def ctor_rpy_eul(ctx, part, nparts):
     import spatialmath as sm
     import spatialmath.base as b
@@ -178,12 +185,19 @@ def ctor_rpy_eul(ctx, part, nparts):
                 if order in ('zyx', 'arm'):
                     for cn, C, kind in (('SO3', sm.SO3, 'SO3'), ('SE3', sm.SE3, 'SE3'), ('UnitQuaternion', sm.UnitQuaternion, 'UQ')):
                         run(ctx, 'C01/%s.RPY/%s' % (cn, base), cn + '.RPY', dict(P, cls=cn), kind, C.RPY, list(A), unit=u, order=order, key=(cn, 'RPY', base), trivial=triv)
+                        if cn != 'UnitQuaternion':      # N x 3 tables of angles (array and list of rows): every element is a member
+                            for fn_, tab in _tables(A, k):
+                                run(ctx, 'C01/%s.RPY/%s/table=%s' % (cn, base, fn_), cn + '.RPY', dict(P, cls=cn, form=fn_), kind, C.RPY, tab, unit=u, order=order,
+                                    key=(cn, 'RPY', base, fn_), trivial=False, expect_n=len(tab))
             P = dict(unit=u, phi=rn, theta=pn, psi=yn)
             base = 'phi=%s/th=%s/psi=%s/%s' % (rn, pn, yn, u)
             run(ctx, 'C01/base.eul2r/' + base, 'base.eul2r', P, 'SO3', b.eul2r, A[0], A[1], A[2], unit=u, key=('eul2r', base), trivial=triv)
             run(ctx, 'C01/base.eul2tr/' + base, 'base.eul2tr', P, 'SE3', b.eul2tr, list(A), unit=u, key=('eul2tr', base), trivial=triv)
             for cn, C, kind in (('SO3', sm.SO3, 'SO3'), ('SE3', sm.SE3, 'SE3'), ('UnitQuaternion', sm.UnitQuaternion, 'UQ')):
                 run(ctx, 'C01/%s.Eul/%s' % (cn, base), cn + '.Eul', dict(P, cls=cn), kind, C.Eul, list(A), unit=u, key=(cn, 'Eul', base), trivial=triv)
+                if cn != 'UnitQuaternion':
+                    for fn_, tab in _tables(A, k):
+                        run(ctx, 'C01/%s.Eul/%s/table=%s' % (cn, base, fn_), cn + '.Eul', dict(P, cls=cn, form=fn_), kind, C.Eul, tab, unit=u, key=(cn, 'Eul', base, fn_), trivial=False, expect_n=len(tab))
 
 
 def ctor_axis(ctx):
